@@ -19,7 +19,7 @@ def norm_kind(k):
     return (k or '').replace('AsyncIoError', 'IoError')
 
 
-def build_pair(sr, u, config, state, lens=(1, 0, 2)):
+def build_pair(sr, u, config, state, lens=(1, 0, 2), pend=0):
     """creates sync root S and async root A with identical contents; returns the abstract tree"""
     ex = sr.ex
     st = Setup(sr, u)
@@ -38,7 +38,7 @@ def build_pair(sr, u, config, state, lens=(1, 0, 2)):
                 sr.do('fs %sL%d %s' % (pfx, i, kind_mem))
                 st.define_paths('%sL%d' % (pfx, i), '%sL%d_' % (pfx, i))
     mk('S', 'mem', 'alt', 'ovl', 'S')
-    mk('A', 'amem', 'aalt', 'aovl', 'A')
+    mk('A', 'amem' if pend == 0 else 'apend %d' % pend, 'aalt', 'aovl', 'A')
     if config == 'ovl':
         fi = 0
         for v, k, layers in state:
@@ -115,7 +115,7 @@ def run_twin_case(prog, params):
             npend = ex.choose(len(params.get('pendings', [0, 1])), 'pending polls')
             pend = params.get('pendings', [0, 1])[npend]
             ex.hooks['pending'] = lambda ex_, what: pend
-            t = build_pair(sr, u, config, state)
+            t = build_pair(sr, u, config, state, pend=pend)
             tcls = target_class(t, v)
             key = 'sync_vs_async|%s|%s|%s%s' % (config, op, tcls, ('|dst=' + target_class(t, dst)) if dst else '')
             outs = []
@@ -175,7 +175,7 @@ def run_walk_case(prog, params):
         pends = params.get('pendings', [0, 1, 2])
         pend = pends[ex.choose(len(pends), 'pending polls')]
         ex.hooks['pending'] = lambda ex_, what: pend
-        t = build_pair(sr, u, config, state)
+        t = build_pair(sr, u, config, state, pend=pend)
         victims = [v for v in u.vars if v != 'R' and t.kind(v) != 'absent']
         when = ex.choose(3, 'remove after k items')           # remove after 0, 1 or 2 delivered items
         victim = victims[ex.choose(len(victims), 'victim')] if victims else None
